@@ -37,7 +37,7 @@ THEOREMS = [
         "am_rigid_limit forms_agree forms_agree_cbtf accImp_additive forms_agree_empty_qset "
         "pv_empty_qset_order_matters layout_injective layout_in_bounds "
         # Props/C15b (cb.cbtf in full), C15c (ntfl complete), C15d (routes, low-frequency expansion), C15e (limit)
-        "cbtf_eom cbtf_frc_blocks cbtf_force_eq_am_times_accel cbtf_force_zero_freq cbtf_zero_freq cbtf_outputs_def cbtf_accel_eq calcAM_pv_eq_cbtfAM calcAM_pv_zero_freq cbtf_save_transparent cbtf_save_not_keyed cbtfE_force_eq_am_times_accel cbtfE_vs_general flippv_partitions parallel_sum_comm nt_reciprocity nt_reciprocity_matrix nt_force_operator_symmetric ntfl_congruence ntfl_R_trace_invariant ntfl_scaling ntfl_R_not_invariant ntfl_pointwise slice3F_pack3F ntflColF_spec ntA_col packAs_vector packAs_matrix routes_agree_general routes_agree_solvers routes_difference routes_agree_beyond_cb routes_disagree_noncb drm_zero_freq dyn_stiffness_schur_expansion am_low_frequency_expansion lowfreq_regular_tendsto am_low_frequency_limit cb_transform_blocks cb_form_determinate cbtf_low_frequency_expansion cbtf_zero_freq_is_limit"
+        "cbtf_eom cbtf_frc_blocks cbtf_force_eq_am_times_accel cbtf_force_zero_freq cbtf_zero_freq cbtf_outputs_def cbtf_accel_eq calcAM_pv_eq_cbtfAM calcAM_pv_zero_freq cbtf_save_transparent cbtf_save_not_keyed cbtfE_force_eq_am_times_accel cbtfE_vs_general flippv_partitions bset_isPartition parallel_sum_comm nt_reciprocity nt_reciprocity_matrix nt_force_operator_symmetric ntfl_congruence ntfl_R_trace_invariant ntfl_scaling ntfl_R_not_invariant ntfl_pointwise slice3F_pack3F ntflColF_spec ntA_col packAs_vector packAs_matrix routes_agree_general routes_agree_solvers routes_difference routes_agree_beyond_cb routes_disagree_noncb drm_zero_freq dyn_stiffness_schur_expansion am_low_frequency_expansion lowfreq_regular_tendsto am_low_frequency_limit cb_transform_blocks cb_form_determinate cbtf_low_frequency_expansion cbtf_zero_freq_is_limit"
     ).split()
 ]
 TRUSTED = [
@@ -77,8 +77,7 @@ PARTIAL = (
     "(property C02): `drm_zero_freq` proves AM = rigid-body mass FROM the accelerance T phi (phi' M phi)^-1 phi' T' that "
     "branch returns, the branch itself is compared by the oracle only; the solvers (LAPACK solve/inv, SolveUnc.fsolve) enter "
     "every theorem through their specification (hypotheses `SolvesQ`, `hsolve`, `IsUnit det`): verified exactly in the exact "
-    "streams, measured in the numeric ones; that the index functions the driver builds from a b-set list form an "
-    "`IsPartition` is checked by the tie, proved is the list-level statement `flippv_partitions`"
+    "streams, measured in the numeric ones"
 )
 MANIFEST = {
     "level_text": "Proof (Lean 4, standard axioms only) over an arbitrary non-commutative ring and over Mathlib "
@@ -93,7 +92,7 @@ MANIFEST = {
     "`cbtf_force_zero_freq`, `cbtf_zero_freq`), calcAM assembled column by column is that AM (`calcAM_pv_eq_cbtfAM`), a "
     "warm `save` equals a cold call (`cbtf_save_transparent`; the entry is not keyed by the model: `cbtf_save_not_keyed`), "
     "the empty-q-set branch agrees with the general one (`cbtfE_vs_general`), `bset ++ flippv` is a permutation of the DOF "
-    "(`flippv_partitions`). ntfl complete: loop body = the formulas for any solver meeting la.solve's specification "
+    "(`flippv_partitions`) and the index functions built from the vector are a partition (`bset_isPartition`). ntfl complete: loop body = the formulas for any solver meeting la.solve's specification "
     "(`ntflColF_spec`), frequency-by-frequency independence (`ntfl_pointwise`), (b x freq x b) packing round trip "
     "(`slice3F_pack3F`, `layout_injective`), packaging of As (`packAs_vector`, `packAs_matrix`), exchange of source and load "
     "(`nt_reciprocity`: R' = 1 - R, A' = As - A, F' = F; `nt_force_operator_symmetric`), change of boundary coordinates "
@@ -110,8 +109,8 @@ MANIFEST = {
     "couples random free-free structures directly with numpy.linalg.solve and checks cbtf against the CB equations.",
     "level_note": "Trusted: Lean kernel; propext, Classical.choice, Quot.sound; the Python harness; LAPACK / SolveUnc as "
     "solvers (hypotheses of the theorems; verified exactly in the exact streams, measured in the numeric ones); rounding "
-    "outside the theorems; calcAM(f = 0) through SolveUnc's rigid-body branch and the driver's list -> index-function glue "
-    "are tied, not proved. Not in the property's statement and not modelled: frclim.sefl / stdfs / ctdfs (semi-empirical "
+    "outside the theorems; calcAM(f = 0) through SolveUnc's rigid-body branch is tied, not proved (`drm_zero_freq` starts "
+    "from its accelerance). Not in the property's statement and not modelled: frclim.sefl / stdfs / ctdfs (semi-empirical "
     "force limits). Observation (outside the statement): with an empty q-set cb.cbtf returns a, d, v in b-set order, with a "
     "non-empty q-set in model order (`cbtfE_vs_general`).",
     "technique": "Lean 4 proof (ring identities, Schur complements of Mathlib block matrices, function matrices over Fin n, "
@@ -1040,6 +1039,12 @@ def correspondence(ctx):
     _corr_cbtf(ctx, drv, cb)
     _corr_drm(ctx, drv, frclim, ode)
     _corr_pv(ctx, drv, frclim, ode)
+    # not judged (outside the property's statement, which only uses `frc`): see `cbtfE_vs_general`
+    ctx.extra["observations"] = [
+        "cb.cbtf returns a, d, v in b-set order when the q-set is empty and in model order otherwise: for an all-boundary "
+        "model with an unordered partition vector tf.a[bset] != a (cb.cbtf(diag(1,2,3), 0, 0, [10,20,30], [1.0], [2,0,1]).a "
+        "is [10,20,30], not [20,30,10]); frc is in b-set order in both branches"
+    ]
     ctx.require_branches(
         ["ntfl-arrays:b=%d" % b for b in range(1, 7)]
         + ["calcAM-drm:default:select", "calcAM-drm:default:dense", "calcAM-drm:freqdirect:select",
